@@ -76,6 +76,7 @@ Violates == [
   nonsquare |-> "square", nonsquare_wide |-> "square", nonhermitian |-> "hermitian", nonhermitian_diagonal |-> "hermitian", too_small |-> "min2",
   wide_for_tall |-> "tall", tall_for_wide |-> "wide", real_dtype |-> "quat", complex_dtype |-> "quat",
   sparse_storage |-> "dense", unknown_option |-> "option", mismatched_pair |-> "coupled",
+  unknown_option_fragment |-> "option", unknown_option_empty |-> "option", unknown_option_case |-> "option", unknown_option_type |-> "option",
   not_order3 |-> "order3"
 ]
 Classes == DOMAIN Violates
